@@ -161,7 +161,7 @@ pub fn property(ctx: &Ctx) -> Property {
         id: "C14",
         rule: "cases: integer rectangles (origin in [-4,w+4], sizes in [-3,w+6] incl. zero and negative) on 1..12 px surfaces with random non-empty premultiplied contents, all 28 blend modes, solid/image/gradient sources, alpha in [0,1], AA and aliased; plus clear(c) and draw_image_at at integer positions. Oracle: bit-exact differential between four routes (fill_rect fast path; fill(PathBuilder::rect); fill_rect under a surface-covering clip rect; under a larger clip rect); clear under clip vs not; draw_image_at vs fill with translated image. Non-trivial: rectangle covers part but not all of the surface and (mode != SrcOver or source not an opaque solid at alpha 1); distinct by hash of the case.",
         assumptions: vec!["the general route (rasterised rectangle + mask blitters) is itself judged by C01/C02/C03"],
-        parts: vec![part("routes", 60_000, 2_000_000, move || strategy(&c), check)],
+        parts: vec![part("routes", 250_000, 4_000_000, move || strategy(&c), check)],
         min_class_fraction: vec![("routes", "rect-partly-covers-surface", 0.3), ("routes", "non-srcover", 0.5), ("routes", "negative-size", 0.05), ("routes", "rect-off-surface", 0.2)],
         panic_is_violation: false,
     }
